@@ -106,7 +106,23 @@ pub fn gen_flow(
         Node::Case { .. } => Err(vec![TypeErr::new(ast.pos, "Case cannot be top level")]),
         Node::Match { cond, cases } => {
             let outer_env = generate(cond, env, ctx, constr)?;
-            constrain_cases(ast, &Some(*cond.clone()), cases, &outer_env, ctx, constr)
+            let arms_env =
+                constrain_cases(ast, &Some(*cond.clone()), cases, &outer_env, ctx, constr)?;
+            // without an arm that matches anything, it may be that no arm runs
+            let catch_all = cases.iter().any(|case| match &case.node {
+                Node::Case { cond, .. } => match &cond.node {
+                    Node::ExpressionType { expr, .. } => {
+                        matches!(expr.node, Node::Underscore | Node::Id { .. })
+                    }
+                    _ => false,
+                },
+                _ => false,
+            });
+            if catch_all {
+                Ok(arms_env)
+            } else {
+                Ok(arms_env.union(&outer_env))
+            }
         }
 
         Node::For { expr, col, body } => {
